@@ -1,5 +1,6 @@
 (** C07 — pinned statements (client packet ids, inflight window, collisions).  Only [Theorem .. exact ..]. *)
 From Rumqtt Require Import Client.Run4 Client.Inv4 Client.Wire4 Client.Findings4 Client.Loop Client.LoopProofs Client.Flow4 Client.State5 Client.Inv5 Client.LoopInv.
+From Rumqtt Require Import Client.Eff5 Client.Flow5 Client.Wire5.
 
 Theorem c07_inv : forall max manual h, 1 <= max -> max <= 65535 -> contract (init max manual) h = true ->
   exists s, run (init max manual) h = Some s /\ Inv s.
@@ -56,10 +57,11 @@ Theorem c07_f7_loop_refuted_before_fix :
   = Some ([RPublish (mkPub Q1 1 1 1)], [Client.LoopProofs.pq1 2; Client.LoopProofs.pq1 3], [], [PPublish (mkPub Q1 1 1 1)]).
 Proof. exact Client.LoopProofs.f7_loop_witness. Qed.
 
-(* v5: the state invariant (conjuncts a, b, c, f, g; no panic) for rumqttc::v5::MqttState.
-   Not ported to v5 (v5 statements are _partial, covered by correspondence + monitors only):
-   c07_wire (d, e), c07_collision_resolved and the loop-level statements. *)
-Theorem c07_inv_v5_partial : forall max manual h, 1 <= max -> max <= 65535 ->
+(* v5: the state invariant (conjuncts a, b, c, f, g; no panic) for rumqttc::v5::MqttState, every
+   configured limit 1..65535, every op sequence honouring the contract (a CONNACK may change the
+   negotiated limit at any point).  The wire statements (d, e), (g) follow at the end of the file;
+   only the loop-level statements are not ported to v5. *)
+Theorem c07_inv_v5 : forall max manual h, 1 <= max -> max <= 65535 ->
   Client.Inv5.contract5 (Client.State5.init5 max manual) h = true ->
   exists s, Client.Inv5.run5 (Client.State5.init5 max manual) h = Some s /\ Client.Inv5.Inv5 s.
 Proof. exact Client.Inv5.run5_inv_init. Qed.
@@ -75,3 +77,102 @@ Theorem c07_loop_inv_all : forall max manual h, 1 <= max -> max <= 65535 -> fora
   Client.LoopProofs.k7 (Client.Loop.linit max manual) h = false /\
   exists l, Client.Loop.lrun (Client.Loop.linit max manual) h = Some l /\ Inv (Client.Loop.st l).
 Proof. exact Client.LoopInv.lrun_inv_all. Qed.
+
+(* v5 (d), (e): ids on the wire.  Two limits: s5_max_limit (configured, the table size) and s5_max
+   (negotiated receive-maximum, changed by any later CONNACK).  For every op from every state with
+   the invariant: every id written lies in 1..configured; SUBSCRIBE / UNSUBSCRIBE ids and every id
+   the state machine allocates for a publish lie in 1..negotiated; a QoS>0 publish is written,
+   recorded under its id, either as the request just made on a free id, or as the parked
+   collision on the broker's final word about that id; a PUBREL is a replayed release or the answer
+   to an accepting PUBREC of a held publish; an id is freed only by its own PUBACK / PUBCOMP (any
+   reason code) or a PUBREC with a failure reason (frees5), and taken only when written. *)
+Theorem c07_wire_v5 : forall s o s' rep, Client.Inv5.Inv5 s -> Client.Inv5.op_ok5 s o = true -> outcome5 s o = Some (s', rep) ->
+  (forall pk, rep = Some pk -> wire_id_ok5 (s5_max_limit s) pk) /\
+  (forall id n, rep = Some (P5Subscribe id n) \/ rep = Some (P5Unsubscribe id n) -> 1 <= id <= s5_max s) /\
+  (forall p, rep = Some (P5Publish p) -> q_qos p <> Q0 ->
+     vget (s5_pub s') (q_pkid p) = Some (Some p) /\
+     ((Client.Inv5.busy5 s (q_pkid p) = false /\
+       exists r, o = Out5 (R5Publish r) /\ p = with_pkid5 r (q_pkid p) /\ (q_pkid r <> 0 -> q_pkid p = q_pkid r)
+                 /\ (q_pkid r = 0 -> q_pkid p <= s5_max s))
+      \/ (frees5 o (q_pkid p) /\ s5_collision s = Some p))) /\
+  (forall id x, rep = Some (P5PubRel id x) ->
+     o = Out5 (R5PubRel id)
+     \/ exists reason, o = Inc5 (P5PubRec id reason) /\ ack_ok reason = true /\ pub_at5 s id <> None) /\
+  (forall i, Client.Inv5.busy5 s i = true -> Client.Inv5.busy5 s' i = false -> frees5 o i) /\
+  (forall i, Client.Inv5.busy5 s i = false -> Client.Inv5.busy5 s' i = true ->
+     (exists p, rep = Some (P5Publish p) /\ q_pkid p = i /\ q_qos p <> Q0) \/ o = Out5 (R5PubRel i)) /\
+  (is_connack5 o = false -> s5_max s' = s5_max s).
+Proof. exact step5_wire. Qed.
+
+(* the same along every history from MqttState::new(max, _), max in 1..65535 *)
+Theorem c07_wire_run_v5 : forall max manual h o s s' rep,
+  1 <= max -> max <= 65535 -> Client.Inv5.contract5 (init5 max manual) (h ++ [o]) = true ->
+  Client.Inv5.run5 (init5 max manual) h = Some s -> outcome5 s o = Some (s', rep) ->
+  wire_facts5 s o s' rep /\ s5_max_limit s = max /\ 1 <= s5_max s <= max.
+Proof. exact run5_wire. Qed.
+
+(* every id within the CURRENT negotiated limit, as long as nothing held lies above it (low5); kept
+   by every op except the two named in op_low5 (a replayed request carrying an id above the limit;
+   a CONNACK lowering receive-maximum below an id still held) *)
+Theorem c07_wire_negotiated_v5 : forall s o s' rep,
+  Client.Inv5.Inv5 s -> low5 s -> Client.Inv5.op_ok5 s o = true -> op_low5 s o = true -> outcome5 s o = Some (s', rep) ->
+  low5 s' /\ (forall pk, rep = Some pk -> wire_id_ok5 (s5_max s) pk).
+Proof. exact step5_low. Qed.
+
+Theorem c07_wire_negotiated_run_v5 : forall max manual h o s s' rep,
+  1 <= max -> max <= 65535 -> Client.Inv5.contract5 (init5 max manual) (h ++ [o]) = true -> lowc5 (init5 max manual) (h ++ [o]) = true ->
+  Client.Inv5.run5 (init5 max manual) h = Some s -> outcome5 s o = Some (s', rep) ->
+  forall pk, rep = Some pk -> wire_id_ok5 (s5_max s) pk.
+Proof. exact run5_wire_low. Qed.
+
+(* both clauses of op_low5 are needed (ids 3 resp. 2 on the wire under a negotiated limit of 1) *)
+Theorem c07_negotiated_needs_replay_clause_v5 :
+  let h := [pq5 Q1 1; pq5 Q1 2; pq5 Q1 3; Clean5; Inc5 (P5ConnAck true 0 (Some 1) None);
+            Out5 (R5Publish (mkPub5 Q1 3 3 3 None))] in
+  Client.Inv5.contract5 (init5 3 false) h = true /\ lowc5 (init5 3 false) h = false /\
+  option_map s5_max (Client.Inv5.run5 (init5 3 false) (firstn 5 h)) = Some 1 /\
+  nth 5 (trace5 (init5 3 false) h) None = Some (P5Publish (mkPub5 Q1 3 3 3 None)).
+Proof. exact low5_needs_replay_clause. Qed.
+
+Theorem c07_negotiated_needs_connack_clause_v5 :
+  let h := [pq5 Q2 1; pq5 Q2 2; Inc5 (P5ConnAck true 0 (Some 1) None); Inc5 (P5PubRec 2 0)] in
+  Client.Inv5.contract5 (init5 3 false) h = true /\ lowc5 (init5 3 false) h = false /\
+  option_map s5_max (Client.Inv5.run5 (init5 3 false) (firstn 3 h)) = Some 1 /\
+  nth 3 (trace5 (init5 3 false) h) None = Some (P5PubRel 2 0).
+Proof. exact low5_needs_connack_clause. Qed.
+
+(* the clause "receive-maximum >= 1" of op_ok5 is needed: after a CONNACK announcing 0 the allocator
+   never wraps (SUBSCRIBE id 3 under a configured limit of 2; every QoS>0 publish refused) *)
+Theorem c07_contract_needs_receive_max_ge_1_v5 :
+  let h := [Inc5 (P5ConnAck true 0 (Some 0) None); Out5 (R5Subscribe 1); Out5 (R5Subscribe 1); Out5 (R5Subscribe 1); pq5 Q1 1] in
+  Client.Inv5.contract5 (init5 2 false) h = false /\
+  trace5 (init5 2 false) h = [None; Some (P5Subscribe 1 1); Some (P5Subscribe 2 1); Some (P5Subscribe 3 1); None] /\
+  (exists s s', Client.Inv5.run5 (init5 2 false) (firstn 4 h) = Some s /\ s5_max s = 0 /\
+     step5 s (pq5 Q1 1) = Err (s', E5Unsolicited 4)).
+Proof. exact receive_max_zero_breaks_ids. Qed.
+
+(* v5 (g): the parked collision is resolved, in the same step, by the broker's final word on its id *)
+Theorem c07_collision_resolved_v5 : forall s q o s' rep, Client.Inv5.Inv5 s -> s5_collision s = Some q ->
+  ((exists reason, o = Inc5 (P5PubAck (q_pkid q) reason)) /\ pub_at5 s (q_pkid q) <> None
+   \/ (exists reason, o = Inc5 (P5PubComp (q_pkid q) reason)) /\ bit (s5_rel s) (q_pkid q) = true
+   \/ (exists reason, o = Inc5 (P5PubRec (q_pkid q) reason) /\ ack_ok reason = false) /\ pub_at5 s (q_pkid q) <> None) ->
+  outcome5 s o = Some (s', rep) ->
+  rep = Some (P5Publish q) /\ s5_collision s' = None /\ vget (s5_pub s') (q_pkid q) = Some (Some q).
+Proof. exact collision_resolved5. Qed.
+
+(* an accepting PUBREC on the parked id does not resolve it: the id stays busy (release pending) *)
+Theorem c07_collision_survives_pubrec_v5 : forall s q reason s' rep,
+  Client.Inv5.Inv5 s -> s5_collision s = Some q -> ack_ok reason = true ->
+  outcome5 s (Inc5 (P5PubRec (q_pkid q) reason)) = Some (s', rep) ->
+  s5_collision s' = Some q /\ (Client.Inv5.busy5 s' (q_pkid q) = true).
+Proof. exact collision_survives_pubrec5. Qed.
+
+Theorem c07_wire_nontrivial_v5 :
+  let h := [pq5 Q2 1; pq5 Q1 2; Inc5 (P5PubAck 2 0); pq5 Q1 3; Inc5 (P5ConnAck true 0 (Some 1) (Some 4));
+            Inc5 (P5PubRec 1 135); pq5 Q1 4; Inc5 (P5PubAck 1 128); Out5 (R5Subscribe 1)] in
+  Client.Inv5.contract5 (init5 2 false) h = true /\ lowc5 (init5 2 false) h = true /\
+  trace5 (init5 2 false) h =
+    [Some (P5Publish (mkPub5 Q2 1 1 1 None)); Some (P5Publish (mkPub5 Q1 2 2 2 None)); None; None; None;
+     Some (P5Publish (mkPub5 Q1 1 3 3 None)); None; Some (P5Publish (mkPub5 Q1 1 4 4 None)); Some (P5Subscribe 1 1)] /\
+  option_map (fun s => (s5_max s, s5_max_limit s, s5_inflight s, s5_collision s)) (Client.Inv5.run5 (init5 2 false) h) = Some (1, 2, 1, None).
+Proof. exact wire5_nontrivial. Qed.
